@@ -178,6 +178,14 @@ pub fn run(tier: &str, seed: u64) -> Report {
           }
         }
       }
+      // the roots are those of building everything at once (as a set: the order follows the calls)
+      {
+        let a: BTreeSet<String> = graph.roots.iter().map(|r| r.to_string()).collect();
+        let b: BTreeSet<String> = scratch.roots.iter().map(|r| r.to_string()).collect();
+        if a != b {
+          report.fail("oracle", "incremental-roots-differ-from-build-at-once", format!("roots after the successive builds {:?}, after one build {:?}", a, b), desc.clone());
+        }
+      }
       // same graph as building all roots at once
       if in_scope {
         let got = entries(&graph);
